@@ -36,6 +36,30 @@ theorem keyboardDecodeKey_char (code c : Nat) (h : keyboardDecodeKey code = some
     | (simp at h; done)
     | (simp only [Option.some.injEq, KeyName.char.injEq] at h; subst h; assumption)
 
+theorem utf8Decode_scalar (d : List Nat) (c : Nat) (h : SurfModel.Payload.utf8Decode d = .ok c) :
+    SurfModel.Payload.isScalar c = true := by
+  unfold SurfModel.Payload.utf8Decode at h
+  split at h
+  · cases h
+  · rename_i first rest
+    simp only at h
+    split at h
+    · cases h
+    · rename_i code _
+      by_cases hs : SurfModel.Payload.isScalar (List.foldl (fun code byte => code * 64 + byte % 64) code rest) = true
+      · rw [if_pos hs] at h
+        cases h
+        exact hs
+      · rw [if_neg hs] at h
+        cases h
+
+theorem key_good (name : KeyName) (mode code : Nat) (h : keyboardDecodeKey code = some name) :
+    ∀ c, charOf (.key ⟨name, mode⟩) = some c → SurfModel.Payload.isScalar c = true := by
+  intro c hc
+  cases name <;> simp [charOf] at hc
+  subst hc
+  exact keyboardDecodeKey_char _ _ h
+
 theorem decode_good (k : Family) (d : List Nat) : Good (SurfModel.Payload.decode k d) := by
   intro e he
   cases k with
@@ -67,12 +91,7 @@ theorem decode_good (k : Family) (d : List Nat) : Good (SurfModel.Payload.decode
       | (simp at he; done)
       | (simp at he; subst he; simp [isRaw, charOf]; done)
       | (simp only [Except.ok.injEq, Option.some.injEq] at he; subst he
-         refine ⟨rfl, ?_⟩
-         intro c hc
-         rename_i name hname _ _
-         cases name <;> simp [charOf] at hc
-         subst hc
-         exact keyboardDecodeKey_char _ _ hname)
+         exact ⟨rfl, key_good _ _ _ (by assumption)⟩)
   | mouse =>
     simp only [SurfModel.Payload.decode, decodeMouse] at he
     repeat' split at he
@@ -104,12 +123,200 @@ theorem decode_good (k : Family) (d : List Nat) : Good (SurfModel.Payload.decode
       intro c' hc'
       simp only [charOf, Option.some.injEq] at hc'
       subst hc'
-      unfold SurfModel.Payload.utf8Decode at hc
-      repeat' split at hc
-      all_goals first | (simp at hc; done) | (simp only [Except.ok.injEq] at hc; subst hc; assumption)
+      exact utf8Decode_scalar _ _ hc
   | paste =>
     simp only [SurfModel.Payload.decode, decodePaste] at he
     repeat' split at he
     all_goals first | (simp at he; done) | (simp at he; subst he; simp [isRaw, charOf])
+
+theorem decodeCommand_good (i : Nat) (d : List Nat) : Good (decodeCommand i d) := by
+  intro e he
+  unfold decodeCommand at he
+  split at he
+  · exact decode_good .sgr d e he
+  · split at he
+    · cases he
+    · rename_i c hc
+      simp only [Except.ok.injEq, Option.some.injEq] at he
+      subst he
+      refine ⟨rfl, ?_⟩
+      intro c' hc'
+      simp only [charOf, Option.some.injEq] at hc'
+      subst hc'
+      exact utf8Decode_scalar _ _ hc
+  · cases he
+
+/-! ## raw events carry exactly the bytes of their item -/
+
+theorem eventOfItem_raw {σ} (A : TAuto σ) (it : Item σ) (b : List Nat) (h : eventOfItem A it = .ok (.raw b)) :
+    b = natBytes it.bytes := by
+  cases it with
+  | raw bs => simp only [eventOfItem, Except.ok.injEq, Event.raw.injEq] at h; exact h.symm
+  | tok bs q =>
+    simp only [eventOfItem] at h
+    split at h
+    · cases h
+    · rename_i t _
+      simp only [eventOfTok] at h
+      split at h
+      · cases h
+      · rename_i e hd
+        simp only [Except.ok.injEq] at h
+        subst h
+        -- a decoder never answers `Some(Raw(..))`
+        exfalso
+        unfold decodeTok at hd
+        split at hd
+        · split at hd
+          · simp at hd
+          · cases hd
+        · split at hd
+          · rename_i k _
+            have := (decode_good k _ _ hd).1
+            simp [isRaw] at this
+          · cases hd
+      · simp only [Except.ok.injEq, Event.raw.injEq] at h
+        exact h.symm
+
+theorem commandOfItem_raw {σ} (A : TAuto σ) (it : Item σ) (b : List Nat) (h : commandOfItem A it = .ok (.raw b)) :
+    b = natBytes it.bytes := by
+  cases it with
+  | raw bs => simp only [commandOfItem, Except.ok.injEq, Event.raw.injEq] at h; exact h.symm
+  | tok bs q =>
+    simp only [commandOfItem] at h
+    split at h
+    · cases h
+    · rename_i t _
+      split at h
+      · cases h
+      · rename_i e hd
+        simp only [Except.ok.injEq] at h
+        subst h
+        exfalso
+        unfold decodeCommandTok at hd
+        split at hd
+        · cases hd
+        · have := (decodeCommand_good _ _ _ hd).1
+          simp [isRaw] at this
+      · simp only [Except.ok.injEq, Event.raw.injEq] at h
+        exact h.symm
+
+/-! ## characters are scalar values -/
+
+def keyScalar (k : Key) : Bool :=
+  match k.name with
+  | .char c => SurfModel.Payload.isScalar c
+  | _ => true
+
+set_option maxRecDepth 100000 in
+/-- every character key of the literal table is a scalar value (re-decided on the regenerated table) -/
+theorem keyTable_scalar :
+    SurfModel.Generated.keyTable.all (fun e =>
+      match Key.ofCode (keyCode3 e.2.1 e.2.2.1 e.2.2.2) with
+      | some k => keyScalar k
+      | none => true) = true := by
+  decide +kernel
+
+/-- the least tag of a token of an automaton realising the event grammar: a key of the table spelled by the
+    token, or the tag of a family whose grammar matches the token -/
+theorem leastTag_spec {σ} (A : TAuto σ) (hR : Realises A) (bs : List UInt8) (q : σ)
+    (hrun : runA A.toAuto A.start bs = some q) (hacc : A.accepting q = true) (t : Nat) (ht : A.leastTag q = some t) :
+    (∃ e ∈ SurfModel.Generated.keyTable, keyCode3 e.2.1 e.2.2.1 e.2.2.2 = t ∧ bs = bytes e.1) ∨
+      (∃ k, k ≠ Family.keys ∧ t = k.tag ∧ (grammar k).Matches bs) := by
+  have hr := hR bs
+  rw [hrun] at hr
+  cases hS : eventDFA.run bs with
+  | none => rw [hS] at hr; simp at hr
+  | some S =>
+    rw [hS] at hr
+    simp only [Option.map_some, Option.some.injEq, Prod.mk.injEq] at hr
+    have htags : A.tags q = eventDFA.tagsAfter bs := by
+      rw [hr.2]; unfold DFA.tagsAfter; rw [hS]
+    have hmem : t ∈ eventDFA.tagsAfter bs := by
+      rw [← htags]
+      unfold TAuto.leastTag at ht
+      cases hl : A.tags q with
+      | nil => rw [hl] at ht; cases ht
+      | cons x r => rw [hl] at ht; simp only [List.head?_cons, Option.some.injEq] at ht; subst ht; simp
+    exact (event_tags bs t).mp hmem
+
+theorem eventOfItem_char {σ} (A : TAuto σ) (hR : Realises A) (it : Item σ) (hok : ItemOk A.toAuto it) (e : Event)
+    (h : eventOfItem A it = .ok e) (c : Nat) (hc : charOf e = some c) : SurfModel.Payload.isScalar c = true := by
+  cases it with
+  | raw bs =>
+    simp only [eventOfItem, Except.ok.injEq] at h
+    subst h
+    simp [charOf] at hc
+  | tok bs q =>
+    obtain ⟨_, hrun, hacc⟩ := hok
+    simp only [eventOfItem] at h
+    split at h
+    · cases h
+    · rename_i t ht
+      have hspec := leastTag_spec A hR bs q hrun hacc t ht
+      simp only [eventOfTok] at h
+      split at h
+      · cases h
+      · rename_i e' hd
+        simp only [Except.ok.injEq] at h
+        subst h
+        unfold decodeTok at hd
+        split at hd
+        · rename_i hlt
+          split at hd
+          · rename_i k hk
+            simp only [Except.ok.injEq, Option.some.injEq] at hd
+            subst hd
+            rcases hspec with ⟨ent, hent, hcode, _⟩ | ⟨k', _, hk', _⟩
+            · have := List.all_eq_true.mp keyTable_scalar ent hent
+              rw [hcode, hk] at this
+              simp only at this
+              unfold keyScalar at this
+              cases hn : k.name with
+              | char c' =>
+                rw [hn] at this
+                simp only at this
+                have : k = ⟨.char c', k.mode⟩ := by cases k; simp_all
+                rw [this] at hc
+                simp only [charOf, Option.some.injEq] at hc
+                subst hc
+                assumption
+              | _ =>
+                have : charOf (.key k) = none := by cases k; simp_all [charOf]
+                rw [this] at hc; cases hc
+            · have := family_tag_ge k'
+              omega
+          · cases hd
+        · split at hd
+          · rename_i k _
+            exact (decode_good k _ _ hd).2 c hc
+          · cases hd
+      · simp only [Except.ok.injEq] at h
+        subst h
+        simp [charOf] at hc
+
+theorem commandOfItem_char {σ} (A : TAuto σ) (it : Item σ) (e : Event)
+    (h : commandOfItem A it = .ok e) (c : Nat) (hc : charOf e = some c) : SurfModel.Payload.isScalar c = true := by
+  cases it with
+  | raw bs =>
+    simp only [commandOfItem, Except.ok.injEq] at h
+    subst h
+    simp [charOf] at hc
+  | tok bs q =>
+    simp only [commandOfItem] at h
+    split at h
+    · cases h
+    · split at h
+      · cases h
+      · rename_i e' hd
+        simp only [Except.ok.injEq] at h
+        subst h
+        unfold decodeCommandTok at hd
+        split at hd
+        · cases hd
+        · exact (decodeCommand_good _ _ _ hd).2 c hc
+      · simp only [Except.ok.injEq] at h
+        subst h
+        simp [charOf] at hc
 
 end SurfProofs.DecoderEvents
